@@ -1626,17 +1626,144 @@ theorem WF.step_publish {st : St} (h : WF st) (tn : String) (tick : Int) (pm : P
         unfold Time at *; omega
     · rw [hsubs]; exact h.noDL
 
+/-- deleting delivery rows keeps the fragment's invariants (given the refinement obligation) -/
+theorem WF.of_deleteDeliveries {st : St} (h : WF st) (victims : List Id)
+    (hok : Ord.stepOk true st.db st.now (deleteDeliveries st.db victims) st.now = true) :
+    WF { st with db := deleteDeliveries st.db victims } := by
+  have hmem : ∀ d ∈ (deleteDeliveries st.db victims).dels, ∃ d0 ∈ st.db.dels, d = clrV victims d0 := by
+    intro d hd
+    rw [deleteDeliveries_dels] at hd
+    obtain ⟨d0, hd0, rfl⟩ := List.mem_map.mp hd
+    exact ⟨d0, (List.mem_filter.mp hd0).1, rfl⟩
+  have hfields : ∀ d0, (clrV victims d0).msgId = d0.msgId ∧ (clrV victims d0).subId = d0.subId ∧
+      (clrV victims d0).publishedAt = d0.publishedAt := by
+    intro d0; unfold clrV; split <;> (try split) <;> exact ⟨rfl, rfl, rfl⟩
+  refine ⟨h.inv.step hok, ?_, ?_, h.uqS, ?_, ?_, h.noDL⟩
+  · intro d hd
+    obtain ⟨d0, hd0, rfl⟩ := hmem d hd
+    rw [(hfields d0).1]; exact h.fkM d0 hd0
+  · intro d hd
+    obtain ⟨d0, hd0, rfl⟩ := hmem d hd
+    rw [(hfields d0).2.1]; exact h.fkS d0 hd0
+  · intro s hs
+    have := h.idsS s hs
+    rw [List.contains_iff_mem] at this ⊢
+    unfold Db.allIds at this ⊢
+    simp only [List.mem_append, List.mem_map] at this ⊢
+    rcases this with (((h0 | h0) | h0) | h0) | h0
+    · left; left; left; left; exact h0
+    · left; left; left; right; exact h0
+    · left; left; right; exact h0
+    · -- a subscription id that is (also) a delivery id: it is a subscription id anyway
+      left; left; left; right; exact ⟨s, hs, rfl⟩
+    · right; exact h0
+  · intro d hd
+    obtain ⟨d0, hd0, rfl⟩ := hmem d hd
+    rw [(hfields d0).2.2]; exact h.clk d0 hd0
+
+theorem WF.step_pruneCompletedDeliveries {st : St} (h : WF st) (a : Int) (mx : Nat) (v : List Id) :
+    WF (Mmmbbb.step st (.pruneCompletedDeliveries a mx v)).1 := by
+  have hok := C05_refines_pruneCompletedDeliveries st a mx v h.inv.uniq
+  revert hok
+  simp only [Mmmbbb.step]
+  unfold pruneCompletedDeliveries
+  simp only
+  split
+  · intro _; simp only [finish]; exact h
+  · intro hok; simp only [finish] at hok ⊢; exact h.of_deleteDeliveries v hok
+
+theorem WF.step_pruneExpiredDeliveries {st : St} (h : WF st) (mx : Nat) (v : List Id) :
+    WF (Mmmbbb.step st (.pruneExpiredDeliveries mx v)).1 := by
+  have hok := C05_refines_pruneExpiredDeliveries st mx v h.inv.uniq
+  revert hok
+  simp only [Mmmbbb.step]
+  unfold pruneExpiredDeliveries
+  simp only
+  split
+  · intro _; simp only [finish]; exact h
+  · intro hok; simp only [finish] at hok ⊢; exact h.of_deleteDeliveries v hok
+
+theorem publishOne_topics {db db1 : Db} {t : Topic} {now : Time} {pm : PubMsg} {w : List Id}
+    (h1 : publishOne db t now pm = .ok (db1, w)) : db1.topics = db.topics := by
+  obtain ⟨m, dbm, _, hdbm, _, hdel⟩ := publishOne_shape h1
+  obtain ⟨rows, _, hdb', _⟩ := deliverAll_shape hdel
+  rw [hdb', hdbm]
+
+theorem step_publish_one_eq {db db1 : Db} {t : Topic} {now : Time} {pm : PubMsg} {w : List Id} (tn : String) (tick : Int)
+    (ht : db.liveTopicByName tn = some t) (h1 : publishOne db t now pm = .ok (db1, w)) :
+    (Mmmbbb.step { db := db, now := now } (.publish tn tick [pm])).1 = { db := db1, now := now + tick * (1 : Nat) } := by
+  simp only [Mmmbbb.step, publish, ht, publishLoop, h1, List.length_singleton]
+
+/-- **a publish request with any number of messages keeps the fragment's invariants** (the clock ticks
+    between the messages of the batch) -/
+theorem WF.publishLoop (tn : String) (t : Topic) (tick : Int) (htick : 0 < tick) :
+    ∀ (ms : List PubMsg) (db : Db) (now : Time) (wakes : List Id) (db' : Db) (w' : List Id),
+      WF { db := db, now := now } → db.liveTopicByName tn = some t →
+      Mmmbbb.publishLoop t tick db now wakes ms = .ok (db', w') →
+      WF { db := db', now := now + tick * (ms.length : Nat) } := by
+  intro ms
+  induction ms with
+  | nil =>
+    intro db now wakes db' w' h _ hl
+    unfold Mmmbbb.publishLoop at hl
+    injection hl with hl; injection hl with h1 _; subst h1
+    have : now + tick * ((([] : List PubMsg).length : Nat) : Int) = now := by simp
+    rw [this]; exact h
+  | cons pm r ih =>
+    intro db now wakes db' w' h ht hl
+    unfold Mmmbbb.publishLoop at hl
+    split at hl
+    · cases hl
+    · rename_i db1 w h1
+      have hstep := h.step_publish tn tick pm htick
+      rw [show (Mmmbbb.step { db := db, now := now } (.publish tn tick [pm])).1 = { db := db1, now := now + tick * (1 : Nat) } from
+        step_publish_one_eq tn tick ht h1] at hstep
+      have ht1 : db1.liveTopicByName tn = some t := by
+        unfold Db.liveTopicByName at ht ⊢
+        rw [publishOne_topics h1]; exact ht
+      have hnow1 : now + tick * ((1 : Nat) : Int) = now + tick := by simp
+      rw [hnow1] at hstep
+      have := ih db1 (now + tick) (wakes ++ w) db' w' hstep ht1 hl
+      have hlen : now + tick + tick * ((r.length : Nat) : Int) = now + tick * (((pm :: r).length : Nat) : Int) := by
+        simp only [List.length_cons]
+        have : ((r.length + 1 : Nat) : Int) = (r.length : Int) + 1 := by omega
+        rw [this, Int.mul_add, Int.mul_one]
+        unfold Time at *
+        omega
+      rw [hlen] at this; exact this
+
+theorem WF.step_publish_many {st : St} (h : WF st) (tn : String) (tick : Int) (ms : List PubMsg) (htick : 0 < tick) :
+    WF (Mmmbbb.step st (.publish tn tick ms)).1 := by
+  simp only [Mmmbbb.step]
+  cases hp : publish st.db st.now tn tick ms with
+  | error e => exact h
+  | ok o =>
+    simp only
+    unfold publish at hp
+    split at hp
+    · cases hp
+    · rename_i t ht
+      split at hp
+      · cases hp
+      · rename_i db' wakes hl
+        injection hp with hp; subst hp
+        exact WF.publishLoop tn t tick htick ms st.db st.now [] db' wakes h ht hl
+
 /-- the fragment: clock advances, topic and subscription creation (no dead-letter policy), publishes
-    of one message with the clock ticking on, pulls (waiting or not), deadline changes, and
-    acknowledgements of deliveries that have been handed out (the only ack ids a client can hold) -/
+    (single and batched, the clock ticking between messages), pulls (waiting or not), deadline changes
+    (positive, zero — the nack of a client library — and negative), acknowledgements of deliveries that
+    have been handed out (the only ack ids a client can hold), and the two jobs that delete
+    acknowledged / expired delivery rows -/
 def fragOk (st : St) : Op → Prop
   | .advance d => 0 ≤ d
   | .createTopic _ _ _ => True
   | .createSub p _ => p.maxAttempts = 0
-  | .publish _ tick ms => 0 < tick ∧ ms.length = 1
+  | .publish _ tick _ => 0 < tick
   | .pull _ _ _ _ wait _ => 0 ≤ wait
   | .ack ids => ∀ d ∈ st.db.dels, ids.contains d.id = true → 0 < d.attempts
   | .delay _ _ => True
+  | .pruneCompletedDeliveries _ _ _ => True
+  | .pruneExpiredDeliveries _ _ => True
   | _ => False
 
 instance (st : St) (op : Op) : Decidable (fragOk st op) := by
@@ -1651,13 +1778,12 @@ theorem WF.step {st : St} (h : WF st) (op : Op) (hf : fragOk st op) : WF (Mmmbbb
   | advance d => exact h.step_advance d hf
   | createTopic n l i => exact h.step_createTopic n l i
   | createSub p i => exact h.step_createSub p i hf
-  | publish t tick ms =>
-    obtain ⟨ht, hl⟩ := hf
-    match ms, hl with
-    | [pm], _ => exact h.step_publish t tick pm ht
+  | publish t tick ms => exact h.step_publish_many t tick ms hf
   | pull sn mx mb strict wait obs => exact h.step_pull sn mx mb strict wait obs hf
   | ack ids => exact h.step_ack ids hf
   | delay ids d => exact h.step_delay ids d
+  | pruneCompletedDeliveries a mx v => exact h.step_pruneCompletedDeliveries a mx v
+  | pruneExpiredDeliveries mx v => exact h.step_pruneExpiredDeliveries mx v
   | _ => exact absurd hf (by simp [fragOk])
 
 theorem WF.run : ∀ (ops : List Op) (st : St), WF st → fragRun st ops → WF (Mmmbbb.run st ops)
@@ -1667,9 +1793,11 @@ theorem WF.run : ∀ (ops : List Op) (st : St), WF st → fragRun st ops → WF 
     exact WF.run r _ (h.step op hf.1) hf.2
 
 /-- **C05 on the fragment, outright**: for *every* history of clock advances, topic and subscription
-    creations (without dead-letter policy), single-message publishes with an advancing clock, pulls,
-    deadline changes and acknowledgements of handed-out deliveries — any number of subscriptions, keys,
-    un-keyed messages in between, pulls of any size, acks in any order, lease and retention expiry —
+    creations (without dead-letter policy), publishes (single and batched) with an advancing clock,
+    pulls, deadline changes (zero deadlines — nacks — included), acknowledgements of handed-out
+    deliveries and runs of the jobs that delete acknowledged or expired deliveries — any number of
+    subscriptions, keys, un-keyed messages in between, pulls of any size, acks in any order, lease
+    and retention expiry, pruning of completed predecessors —
     in the state it reaches no keyed delivery of an ordered subscription is eligible while an
     earlier-published delivery of the same key is outstanding.  No hypothesis is evaluated on the
     run: the refinement obligation of every step is a theorem (`C05_refines_*`), and the side
